@@ -29,41 +29,52 @@ class Unknown(BaseException):
     """Solver gave up, budget exhausted, or something the encoding cannot express: INCONCLUSIVE."""
 
 
-RESET_HOOKS = []       # callables clearing caches that hold z3 objects of the previous context
+RESET_HOOKS = []       # callables clearing per-path caches
 
 
 class Node:
-    __slots__ = ("alts", "i", "kind", "models", "fp")
+    """a *forking* decision: two or more feasible alternatives, each with a model of (path condition so far + that alternative)"""
+    __slots__ = ("alts", "i", "kind", "models")
 
-    def __init__(self, alts, kind, models=None):
+    def __init__(self, alts, kind, models):
         self.alts = alts
         self.i = 0
         self.kind = kind
-        self.models = models or [None] * len(alts)
-        self.fp = None
+        self.models = models
+
+
+def _pyval(v):
+    if z3.is_true(v):
+        return True
+    if z3.is_false(v):
+        return False
+    if z3.is_int_value(v) or z3.is_bv_value(v):
+        return v.as_long()
+    raise Unknown("model evaluation did not produce a value: %s" % str(v)[:200])
 
 
 class Engine:
+    """Replay is *model guided* (see DESIGN 10.6): the stack holds only forking decisions; to re-reach the deepest node whose next
+    alternative is to be explored, the harness is re-executed and every symbolic decision on the way is answered by evaluating its
+    condition under two models -- the model stored for the alternative explored last (M_prev) and the one for the alternative to explore
+    now (M_new).  Both satisfy the whole path condition up to that node, so they agree on every decision before it (those are either
+    implied by the path condition or earlier choices the path condition fixes) and disagree exactly at the node.  No step relies on two
+    executions producing syntactically equal terms (z3's simplifier does not: its normal forms depend on AST ids)."""
+
     def __init__(self, timeout_ms=20000, max_paths=200000, deadline=None):
         self.timeout_ms = timeout_ms
         self.max_paths = max_paths
         self.deadline = deadline
         self.stack = []
-        self.depth = 0
+        self.replay = None
         self.stats = dict(paths=0, pruned=0, checks=0, solver_s=0.0, forks_bool=0, forks_int=0, queries=0,
-                          unknown=0, model_hits=0, max_check_s=0.0, decisions=0, by_backend={})
+                          unknown=0, model_hits=0, max_check_s=0.0, decisions=0, by_backend={}, replayed_decisions=0)
         self.reset_path()
 
     # ---------------------------------------------------------------- per-path state
     def reset_path(self):
-        # A fresh z3 context per path: z3's simplifier orders commutative arguments (and picks normal forms) by AST id, so with a shared
-        # context the *syntactic* result of simplify differs between re-executions, conditions get decided syntactically in one
-        # execution and semantically in another, and the decision tree mis-aligns (measured: an unsat path was explored).  With a
-        # fresh context the re-executed prefix issues the same API calls in the same order, hence the same ids and the same normal forms.
-        z3.z3._main_ctx = None
         for hook in RESET_HOOKS:
             hook()
-        self.depth = 0
         self._fresh_path = 0
         self.bits_reg = {}
         self.lits = []
@@ -73,7 +84,7 @@ class Engine:
         self._model = None        # a model of all current assertions, or None
         self.has_bv = False
         self.notes = {}
-        self.inc = z3.Solver()          # incremental solver holding the path condition (used while Int-only)
+        self.inc = z3.Solver()          # incremental solver holding the path condition
         self.inc.set("timeout", int(self.timeout_ms))
 
     # ---------------------------------------------------------------- solver
@@ -178,50 +189,38 @@ class Engine:
         if c is False:
             raise PathPruned()
         self.add(self.simp(c))
+        if self._model is None:
+            # an assumption may exclude every input of this path: prune it here rather than explore an infeasible path
+            r, m = self._solve()
+            if r != "sat":
+                raise PathPruned()
+            self._model = m
 
     # ---------------------------------------------------------------- decisions
-    def _decide(self, kind, compute_alts, fingerprint=None):
-        d = self.depth
-        self.depth += 1
-        if d < len(self.stack):
-            n = self.stack[d]
-            if os.environ.get("VERIF_DEBUG_DET") and getattr(self, "_dbg_term", None) is not None and n.fp is not None:
-                old, new = n.fp, self._dbg_term
-                if old.ctx != new.ctx:
-                    old = old.translate(new.ctx)
-                    n.fp = old
-                if old.sort() == new.sort():
-                    s_ = z3.Solver(); s_.add(self.assertions); s_.add(old != new)
-                    if s_.check() == z3.sat:
-                        raise Unknown("REAL nondeterminism at decision %d:\n OLD %s\n NEW %s" % (d, old.sexpr()[:800], new.sexpr()[:800]))
-                else:
-                    raise Unknown("REAL nondeterminism (sort) at decision %d" % d)
-                return n.alts[n.i]
-            if n.kind != kind:
-                # the re-execution did not reach the same decision as when this node was created: the harness (or the code under
-                # test) is not deterministic; exploring on would pair stored feasibility verdicts with the wrong conditions
-                raise Unknown("non-deterministic re-execution at decision %d: %s/%s vs %s/%s" % (d, n.kind, n.fp, kind, fingerprint))
-            return n.alts[n.i]
+    def _decide(self, kind, term, compute_alts):
+        """answer a decision on a symbolic (not syntactically decided) Bool / Int / BV term"""
+        if self.replay is not None:
+            node, m_new, m_prev = self.replay
+            a = _pyval(m_new.eval(term, model_completion=True))
+            b = _pyval(m_prev.eval(term, model_completion=True))
+            if a == b:
+                self.stats["replayed_decisions"] += 1
+                return a                      # still inside the common prefix
+            # the two models part ways: this is the node whose next alternative is being explored
+            if kind != node.kind or a != node.alts[node.i] or b != node.alts[node.i - 1]:
+                raise Unknown("replay mis-aligned at the switched decision: %s %r/%r vs node %s %r" % (kind, a, b, node.kind, node.alts))
+            self.replay = None
+            return a
         alts, models = compute_alts()
         if not alts:
             raise PathPruned()
         self.stats["decisions"] += 1
-        node = Node(alts, kind, models)
-        node.fp = fingerprint if not os.environ.get("VERIF_DEBUG_DET") else getattr(self, "_dbg_term", None)
-        self.stack.append(node)
+        if self._model is None:
+            self._model = models[0]           # a model of (path so far + the alternative taken); re-validated by the add() that follows
+        if len(alts) == 1:
+            return alts[0]                    # implied by the path condition: not a node
+        self.stack.append(Node(alts, kind, models))
         return alts[0]
-
-    def _adopt(self, n, i):
-        """a model stored at a decision node, translated into the current path's context"""
-        m = n.models[i]
-        try:
-            if m.ctx != z3.main_ctx():
-                m = m.translate(z3.main_ctx())
-                n.models[i] = m
-            return m
-        except Exception:
-            n.models[i] = None
-            return None
 
     def simp(self, t):
         """simplify modulo the literals already decided on this path"""
@@ -287,11 +286,7 @@ class Engine:
                 self.stats["forks_bool"] += 1
             return out, models
 
-        self._dbg_term = cond
-        v = self._decide("bool", alts, None)
-        n = self.stack[self.depth - 1]
-        if self._model is None and n.models[n.i] is not None:
-            self._model = self._adopt(n, n.i)
+        v = self._decide("bool", cond, alts)
         self.add(cond if v else z3.Not(cond))
         self._learn(cond, v)
         return v
@@ -330,11 +325,7 @@ class Engine:
                 self.stats["forks_int"] += 1
             return out, models
 
-        self._dbg_term = term
-        v = self._decide("int", alts, None)
-        n = self.stack[self.depth - 1]
-        if self._model is None and n.models[n.i] is not None:
-            self._model = self._adopt(n, n.i)
+        v = self._decide("int", term, alts)
         val = z3.IntVal(v) if z3.is_int(term) else z3.BitVecVal(v, term.size())
         self.add(term == val)
         if z3.is_const(term) and term.decl().kind() == z3.Z3_OP_UNINTERPRETED:
@@ -370,12 +361,20 @@ class Engine:
         results = []
         while True:
             self.reset_path()
+            if self.stack:
+                top = self.stack[-1]
+                self.replay = (top, top.models[top.i], top.models[top.i - 1])
+                self._model = top.models[top.i]        # satisfies the whole prefix: re-validated by every add()
+            else:
+                self.replay = None
             pruned = False
             try:
                 out = fn(self)
             except PathPruned:
                 pruned = True
                 out = None
+            if self.replay is not None:
+                raise Unknown("replay ended before reaching the switched decision (non-deterministic harness?)")
             if pruned:
                 self.stats["pruned"] += 1
             else:
@@ -412,7 +411,7 @@ class Engine:
         return m
 
     def path_descr(self):
-        return [(n.kind, n.alts[n.i]) for n in self.stack[:self.depth]]
+        return [(n.kind, n.alts[n.i]) for n in self.stack]
 
 
 _current = None
